@@ -120,6 +120,7 @@ class Executor:
         self.generics = tuple(spec.generics) + tuple(x for x in tp if x not in spec.generics)
         self.n_ret = 0
         self.lemma_hyps: list = []
+        self.uses_inf = fn_node is not None and "inf" in ast.unparse(fn_node)
 
     # ------------------------------------------------------------------ setup
     def ptype(self, s: str) -> T:
@@ -754,6 +755,7 @@ class Executor:
         if res.t not in (INT, REAL, BOOL, NONE) and not (z3.is_const(res.z) and res.z.decl().kind() == z3.Z3_OP_UNINTERPRETED):
             named = fresh(res.t, "result")  # a name for the returned value, so that triggers over it are legal
             st.pc.append(named.z == res.z)
+            self._named_result = (named.z, res.z)
             res = named
         for g, gexpr in self.spec.ghost_return.items():
             st.vars[g] = self.spec_value(gexpr, st, old=self.old, result=res)
@@ -861,6 +863,8 @@ class Executor:
             w.add("_perm")
         if ".values()" in src:
             w.update({"_key_at", "_pos_of"})
+        if "heappop(" in src:
+            w.update({"_heap_inv", "_heap_idx"})
         return w
 
     def havoc(self, st: State, names, hint="h"):
